@@ -10,5 +10,7 @@ def run(tier, seed, limit=0):
     if limit:
         scs = scs[:limit]
     chk.run_scenarios(scs, "Trace_VscRand")
+    chk.run_mc("MC_VscRand", {"MaxLevel": 4 if tier == "quick" else 6}, workers=12, label="A-level API machine on world W-flags")
+    chk.run_mc("B_UsedRand", {"MaxLevel": 4 if tier == "quick" else 6}, label="is_used_rand mechanics |= UsedRand")
     return chk.finish(LEVEL, "histories over world W-mix (sets, rand_mode toggles, rangelist/list edits, 5 call kinds, probes) + family N",
                       ["TLC 1.8; BV/Expr reference semantics; world->DSL compiler"])
